@@ -34,7 +34,16 @@ def make_probes(case, obs, want, shim):
     if "encase" in want and case.get("S") and case.get("opts", {}).get("enc"):
         S = case["S"]
         emitted = [st["name"] for st in out.get("structs", []) if any("encase::ShaderType" in d for d in st.get("derives", []))]
-        names = [n for n in emitted if any(d["name"] == n for d in S["structs"])]
+        def scalars(t):
+            if t["k"] in ("scalar", "atomic", "vec", "mat"):
+                return {t["s"]}
+            if t["k"] in ("array", "rtarray"):
+                return scalars(t["e"])
+            if t["k"] == "struct":
+                return set().union(*[scalars(m["ty"]) for d in S["structs"] if d["name"] == t["name"] for m in d["members"]] or [set()])
+            return set()
+        # structs with members encase cannot hold at all (bool) are outside C10's domain: no probe is generated for them
+        names = [n for n in emitted if any(d["name"] == n for d in S["structs"]) and scalars({"k": "struct", "name": n}) <= set(P.SENT)]
         uni = set()
         for g in S["globals"]:
             if g["space"] == "uniform" and g["ty"].get("k") == "struct":
